@@ -172,6 +172,17 @@ impl Recv {
         // out of `ReservedRemote`. As a result, `recv_open` reports each of them
         // as initial. Only account for the stream once.
         if is_initial && !stream.is_counted {
+            // A promised stream did not count against the limit while it was
+            // reserved, so it is only now that it can turn out to be one too
+            // many.
+            if !counts.can_inc_num_recv_streams() {
+                proto_err!(stream:
+                    "recv_headers: pushed stream exceeds the concurrency limit; stream={:?}",
+                    stream.id
+                );
+                return Err(Error::library_reset(stream.id, Reason::REFUSED_STREAM).into());
+            }
+
             // TODO: be smarter about this logic
             if frame.stream_id() > self.last_processed_id {
                 self.last_processed_id = frame.stream_id();
